@@ -122,22 +122,28 @@ def run_sweep(case, ctx):
   variants = [(1, "valid", 1), (2, "valid", 1), (1, "same", 1), (2, "same", 1), (1, "valid", 2), (1, "same", 2), (3, "same", 1)]
   rnd.shuffle(variants)
   name = "sweep_" + kind
-  for (stride, pad, dil) in variants[:5]:
+  for vi, (stride, pad, dil) in enumerate(variants[:5]):
     tf.keras.backend.clear_session()
+    # "for one input sample": a static batch dimension must not enter any count
+    batch = [None, 4, 1, None, 3][(vi + case["sweep"]) % 5]
     if kind == "conv1d":
-      inp = tf.keras.layers.Input((size, cin), name="in")
+      inp = tf.keras.layers.Input((size, cin), name="in", batch_size=batch)
       layer = qkeras.QConv1D(f, k, strides=stride, padding=pad, dilation_rate=dil, name=name,
                              kernel_quantizer="quantized_bits(4,0,1)", bias_quantizer="quantized_bits(4,0,1)")
     elif kind == "conv2d":
-      inp = tf.keras.layers.Input((size, size, cin), name="in")
+      inp = tf.keras.layers.Input((size, size, cin), name="in", batch_size=batch)
       layer = qkeras.QConv2D(f, (k, k), strides=(stride, stride), padding=pad, dilation_rate=(dil, dil), name=name,
                              kernel_quantizer="quantized_bits(4,0,1)", bias_quantizer="quantized_bits(4,0,1)")
     else:
-      inp = tf.keras.layers.Input((size, size, cin), name="in")
+      inp = tf.keras.layers.Input((size, size, cin), name="in", batch_size=batch)
       layer = qkeras.QDepthwiseConv2D((k, k), strides=(stride, stride), padding=pad, dilation_rate=(dil, dil), name=name,
                                       depthwise_quantizer="quantized_bits(4,0,1)", bias_quantizer="quantized_bits(4,0,1)")
     base = {"part": "count", "route": "qtools", "cls": type(layer).__name__}
-    ok, model = ctx.call(dict(base, op="build_sweep_model"), lambda: tf.keras.Model(inp, layer(inp)))
+    def mk():
+      y = layer(inp)
+      y = qkeras.QActivation("quantized_bits(6,2,1)", name="sweep_act")(y)
+      return tf.keras.Model(inp, tf.keras.layers.Add(name="sweep_add")([y, y]))
+    ok, model = ctx.call(dict(base, op="build_sweep_model"), mk)
     if not ok:
       continue
     out = [int(d) for d in model.output_shape[1:]]
@@ -152,6 +158,11 @@ def run_sweep(case, ctx):
     ctx.count("sweep.models")
     ctx.evals(1)
     ctx.nontrivial("sweep", kind, k, cin, f, size, stride, pad, dil)
+    got_add = q._output_dict.get("sweep_add", {}).get("operation_count")      # pylint: disable=protected-access
+    if got_add is None or int(got_add) != int(np.prod(out)):
+      ctx.violation({"part": "count", "route": "qtools", "cls": "Add", "kind": "count_mismatch_in_geometry_sweep"},
+                    "Add over %r elements per sample (batch dimension %r): reports %r operations" % (out, batch, got_add),
+                    {"batch": batch})
     if got is None or int(got) != expect:
       ctx.violation(dict(base, kind="count_mismatch_in_geometry_sweep"),
                     "%s k=%d cin=%d f=%d input %d, strides %d padding %s dilation %d: reports %r operations, the loop nest performs %d" % (
